@@ -31,7 +31,16 @@ fn esc(s: &str, out: &mut String) {
     out.push('"');
 }
 
-fn channels<T: DeserializeOwned + Serialize>(v: &Value) -> Value {
+/// value-level round trip: rebuild the value from its reference wire form (written by the harness, independent of the
+/// crate's serialiser), serialise it with the crate, parse that, compare values and re-serialisation
+fn value_roundtrip<T: DeserializeOwned + Serialize + PartialEq>(reference: &Value) -> Option<bool> {
+    let t0: T = serde_json::from_value(build(reference)).ok()?;
+    let j1 = serde_json::to_value(&t0).ok()?;
+    let t1: T = match serde_json::from_str(&j1.to_string()) { Ok(t) => t, Err(_) => return Some(false) };
+    Some(t1 == t0 && serde_json::to_value(&t1).ok()? == j1)
+}
+
+fn channels<T: DeserializeOwned + Serialize + PartialEq>(v: &Value, reference: &Value) -> Value {
     let text = serde_json::to_string(v).unwrap();
     let mut esc_text = String::new();
     escaped_text(v, &mut esc_text);
@@ -46,10 +55,11 @@ fn channels<T: DeserializeOwned + Serialize>(v: &Value) -> Value {
     let kinds: Vec<&str> = rs.iter().map(|r| if r.is_ok() { "ok" } else { "err" }).collect();
     let vals: Vec<Value> = rs.iter().filter_map(|r| r.as_ref().ok()).map(|t| serde_json::to_value(t).unwrap()).collect();
     let same = vals.windows(2).all(|w| w[0] == w[1]);
-    let roundtrip = vals.iter().all(|x| x == v);
+    let value_rt = if reference.is_null() { None } else { value_roundtrip::<T>(reference) };
+    let roundtrip = vals.iter().all(|x| x == v) && value_rt.unwrap_or(true);
     let slice_same_as_str = extra[0].is_ok() == rs[0].is_ok() && extra[1].is_ok() == rs[0].is_ok();
     let errs: Vec<String> = rs.iter().filter_map(|r| r.as_ref().err()).map(|e| e.to_string()).collect();
-    json!({"outcome": kinds.join("/"), "values_equal": same, "roundtrip_equal": roundtrip, "slice_and_pretty_agree_with_str": slice_same_as_str, "errors": errs})
+    json!({"outcome": kinds.join("/"), "values_equal": same, "roundtrip_equal": roundtrip, "slice_and_pretty_agree_with_str": slice_same_as_str, "errors": errs, "value_roundtrip": value_rt})
 }
 
 pub fn run(sc: &Value) -> Value {
@@ -57,23 +67,23 @@ pub fn run(sc: &Value) -> Value {
     use in_toto::models::*;
     let v = build(&sc["value"]);
     match sc["type"].as_str().unwrap() {
-        "ArtifactRule" => channels::<rule::ArtifactRule>(&v),
-        "Step" => channels::<step::Step>(&v),
-        "Inspection" => channels::<inspection::Inspection>(&v),
-        "LinkMetadata" => channels::<LinkMetadata>(&v),
-        "LayoutMetadata" => channels::<LayoutMetadata>(&v),
-        "Metablock" => channels::<Metablock>(&v),
-        "MetadataWrapper" => channels::<MetadataWrapper>(&v),
-        "PublicKey" => channels::<PublicKey>(&v),
-        "Signature" => channels::<Signature>(&v),
-        "KeyId" => channels::<KeyId>(&v),
-        "KeyType" => channels::<KeyType>(&v),
-        "HashValue" => channels::<HashValue>(&v),
-        "VirtualTargetPath" => channels::<VirtualTargetPath>(&v),
-        "Command" => channels::<step::Command>(&v),
-        "ByProducts" => channels::<byproducts::ByProducts>(&v),
-        "PredicateWrapper" => channels::<PredicateWrapper>(&v),
-        "StatementWrapper" => channels::<StatementWrapper>(&v),
+        "ArtifactRule" => channels::<rule::ArtifactRule>(&v, &sc["ref_value"]),
+        "Step" => channels::<step::Step>(&v, &sc["ref_value"]),
+        "Inspection" => channels::<inspection::Inspection>(&v, &sc["ref_value"]),
+        "LinkMetadata" => channels::<LinkMetadata>(&v, &sc["ref_value"]),
+        "LayoutMetadata" => channels::<LayoutMetadata>(&v, &sc["ref_value"]),
+        "Metablock" => channels::<Metablock>(&v, &sc["ref_value"]),
+        "MetadataWrapper" => channels::<MetadataWrapper>(&v, &sc["ref_value"]),
+        "PublicKey" => channels::<PublicKey>(&v, &sc["ref_value"]),
+        "Signature" => channels::<Signature>(&v, &sc["ref_value"]),
+        "KeyId" => channels::<KeyId>(&v, &sc["ref_value"]),
+        "KeyType" => channels::<KeyType>(&v, &sc["ref_value"]),
+        "HashValue" => channels::<HashValue>(&v, &sc["ref_value"]),
+        "VirtualTargetPath" => channels::<VirtualTargetPath>(&v, &sc["ref_value"]),
+        "Command" => channels::<step::Command>(&v, &sc["ref_value"]),
+        "ByProducts" => channels::<byproducts::ByProducts>(&v, &sc["ref_value"]),
+        "PredicateWrapper" => channels::<PredicateWrapper>(&v, &sc["ref_value"]),
+        "StatementWrapper" => channels::<StatementWrapper>(&v, &sc["ref_value"]),
         other => json!({"outcome": format!("unsupported-type:{}", other)}),
     }
 }
